@@ -14,7 +14,8 @@ Oracle (independent of the model): every shot ran exactly once; the number of di
 states / first outputs / Born vectors) equals S; the measured draw intervals are pairwise disjoint; the returned
 table is the normalised mean of the recorded vectors.
 """
-import json, math
+import json
+import numpy as np, math
 from fractions import Fraction
 from qgv import core
 
@@ -318,6 +319,83 @@ def compare(case, obs, a, answers):
     return (mis, explains)
 
 
+# ------------------------------------------------------------------------------------------- a transient sampling failure
+def fault_once_case(seed):
+    """one gate request of one shot raises numpy.linalg.LinAlgError once (a transient failure of the sampler).  The run may raise; if it
+    returns, every shot that entered the mean must have been computed from the circuit - i.e. built from exactly the number of gates
+    a faultless shot applies (a shot continued or repeated on its partly built circuit object has more).  In-process, sequential.
+    Returns (description, failure | None)."""
+    import random, contextlib, io
+    from quantum_gates._simulation.simulator import MrAndersonSimulator
+    from quantum_gates._simulation.circuit import BinaryCircuit
+    from quantum_gates._gates.gates import standard_gates
+    from qgv import c09_shots as SH
+    rng = random.Random(seed)
+    name = rng.choice(sorted(CIRCUITS))
+    nq, ops = CIRCUITS[name]
+    counts = []
+
+    class Counting(BinaryCircuit):
+        def __init__(self, *a, **kw):
+            BinaryCircuit.__init__(self, *a, **kw)
+            self.n_applied = 0
+
+        def apply(self, gate, *a, **kw):
+            self.n_applied += 1
+            return BinaryCircuit.apply(self, gate, *a, **kw)
+
+        def statevector(self, psi0):
+            counts.append(self.n_applied)
+            return BinaryCircuit.statevector(self, psi0)
+
+    state = {"n": 0, "k": None, "fired": False}
+
+    class FaultOnce(object):
+        def __getattr__(self, attr):
+            if attr.startswith("__"):
+                raise AttributeError(attr)
+            f = getattr(standard_gates, attr)
+            if not callable(f):
+                return f
+
+            def g(*a, **kw):
+                state["n"] += 1
+                if state["k"] is not None and state["n"] == state["k"] and not state["fired"]:
+                    state["fired"] = True
+                    raise np.linalg.LinAlgError("transient sampling failure (injected by the check)")
+                return f(*a, **kw)
+            return g
+
+    S = rng.randint(2, 4)
+    circ = SH.build_circuit(nq, ops)
+    psi0 = np.zeros(2 ** nq); psi0[0] = 1.0
+
+    def run():
+        sim = MrAndersonSimulator(gates=FaultOnce(), CircuitClass=Counting, parallel=False)
+        np.random.seed(seed % (2 ** 31))
+        with contextlib.redirect_stdout(io.StringIO()):
+            return sim.run(t_qiskit_circ=circ, qubits_layout=list(range(nq)), psi0=psi0, shots=S, device_param=SH.device_param(nq), nqubit=nq)
+    run()                                                   # faultless: how many gate requests and applied gates a shot has
+    per_shot_requests, clean_counts = state["n"] // S, list(counts)
+    del counts[:]
+    state.update(n=0, k=rng.randint(2, max(2, S * per_shot_requests - 1)), fired=False)
+    desc = (f"MrAndersonSimulator.run, {S} shots, sequential, circuit {name!r}, gate request number {state['k']} of the run raises "
+            f"numpy.linalg.LinAlgError once")
+    try:
+        run()
+    except np.linalg.LinAlgError:
+        return desc, None                                   # the failure surfaces: nothing wrong entered a mean
+    except Exception as e:                                  # noqa
+        return desc, None if "LinAlg" in type(e).__name__ else f"raised {type(e).__name__}: {str(e)[:100]}"
+    if not state["fired"]:
+        return desc, None
+    want = clean_counts[0]
+    if any(c != want for c in counts) or len(counts) != S:
+        return desc, (f"the run returned a result; its {len(counts)} evaluated shots were built from {counts} gates, a shot of this circuit has "
+                      f"{want}: a shot was continued or repeated on its partly built circuit and entered the mean")
+    return desc, None
+
+
 # ------------------------------------------------------------------------------------------------------- generators
 def gen_cases(ctx):
     rng, cases = ctx.rng, []
@@ -544,6 +622,19 @@ def main(ctx):
             f"parallel mode (cpu_count={case['cpu']} -> {n_of(case['cpu'])} workers, start method {case['start']})"
         ctx.violation(sig, {"case": public(case), "failure": [sig["kind"], text], "observed": summary(case, obs, a)},
                       f"MrAndersonSimulator.run, {case['S']} shots, {mode}, circuit '{case['circ']}': {text}")
+    # a transient failure of one gate request (fault injection): whatever enters the mean was computed from the circuit
+    fo_bad = None
+    n_fo = 12 if ctx.thorough else 4
+    for kf in range(n_fo):
+        sd = ctx.seed * 104729 + kf
+        desc, bad = fault_once_case(sd)
+        ctx.count()
+        if bad and fo_bad is None:
+            fo_bad = (sd, desc, bad)
+    cov["transient_failure_cases"] = n_fo
+    if fo_bad:
+        ctx.violation({"kind": "shot-not-computed-from-the-circuit"}, {"mode": "fault-once", "seed": fo_bad[0], "case_text": fo_bad[1], "failure": fo_bad[2]},
+                      f"{fo_bad[1]}: {fo_bad[2]}")
     shared_seen = any(f[0] == "shots-share-noise-realisation" for _, _, _, f in oracle_fail)
     failing = {core.sha(public(c)) for c, _, _, _ in oracle_fail}
 
@@ -574,6 +665,10 @@ def main(ctx):
 
 def replay(ctx, path):
     rp = json.load(open(path))["replay"]
+    if rp.get("mode") == "fault-once":
+        desc, bad = fault_once_case(rp["seed"])
+        print(desc); print("oracle:", bad or "holds")
+        return 1 if bad else 0
     case = rp.get("case")
     if not case or "mode" not in case:
         print("replay names a broken obligation, no input to re-run:", json.dumps(rp)[:400])
